@@ -750,6 +750,8 @@ def execute(case: Dict[str, Any]) -> Dict[str, Any]:
             stats.inc("chains.checked")
             if texts[1] != texts[0]:
                 stats.inc("chains.input_changed")
+            # distinctness for C09: one signature per (input, options) chain; non-trivial = the formatter changed the input
+            signatures.append(("chain|" + C.sha(first["x"], {k: first.get(k) for k in ("safe", "keep_imports", "preserve", "max_line_length")})[:14], texts[1] != texts[0]))
             fixed_at = next((k for k in range(len(texts) - 1) if texts[k] == texts[k + 1]), None)
             stats.inc(f"chains.fixed_after_{fixed_at if fixed_at is not None else 'never'}")
             key = C.sha(first["x"], first.get("safe", False), first.get("keep_imports", False))[:12]
